@@ -41,6 +41,11 @@ class Dump:
         fn = ast.parse(self.source).body[0]
         self.used_attrs, self.assigned_attrs, self.locals = [], [], []
         self.body = self.block(fn.body)
+        narrow, cmp_rhs = signatures(fn, {a: v[1] for a, v in self.attr_port.items()})
+        if narrow: self.features.add('arithmetic in a context narrower than its value')
+        if cmp_rhs: self.features.add('comparison whose right operand is a bitwise/boolean/comparison expression')
+        if any(isinstance(n, ast.Match) and not any(isinstance(c.pattern, ast.MatchAs) and c.pattern.name is None for c in n.cases) for n in ast.walk(fn)):
+            self.features.add('match without default')
 
     # ------------------------------------------------------------ expressions
     def unsup(self, what):
@@ -186,3 +191,113 @@ class Dump:
         attrs = '; '.join('(%s, %s)' % (cq_str(a), cq_z(self.int_attrs[a])) for a in self.used_attrs)
         return ('{| b_kind := %s; b_ins := [%s]; b_outs := [%s]; b_attrs := [%s];\n   b_body := %s |}'
                 % ('KClock' if self.kind == 'clock' else 'KPropagate', ins, outs, attrs, self.body))
+
+
+# ---------------------------------------------------------------------------------------------------------------------
+# Syntactic detectors for known-finding signatures (mirror of Verilog's expression sizing on the Python ast; used (a) to
+# attribute a rejected translation to a known finding, (b) by the generator to keep 'plain' programs free of them).
+ARITH = (ast.Add, ast.Sub, ast.Mult, ast.BitAnd, ast.BitOr, ast.BitXor, ast.FloorDiv, ast.Mod)
+
+class Sizes:
+    def __init__(self, port_width):
+        self.pw = port_width            # attribute name -> width of the port it holds
+        self.narrow = False
+        self.cmp_rhs = False
+
+    def port_of(self, e):
+        if isinstance(e, ast.Call) and isinstance(e.func, ast.Attribute) and e.func.attr == 'get' and Dump.is_self_attr(e.func.value):
+            return self.pw.get(e.func.value.attr)
+        return None
+
+    def size(self, e):
+        w = self.port_of(e)
+        if w is not None: return w
+        if isinstance(e, ast.BinOp):
+            if isinstance(e.op, (ast.LShift, ast.RShift)): return self.size(e.left)
+            return max(self.size(e.left), self.size(e.right))
+        if isinstance(e, ast.UnaryOp): return 1 if isinstance(e.op, ast.Not) else self.size(e.operand)
+        if isinstance(e, (ast.Compare, ast.BoolOp)): return 1
+        if isinstance(e, ast.IfExp): return max(self.size(e.body), self.size(e.orelse))
+        return 32
+
+    def ub(self, e):
+        w = self.port_of(e)
+        if w is not None: return w
+        if isinstance(e, ast.Constant) and isinstance(e.value, int): return max(int(e.value).bit_length(), 1) if e.value >= 0 else None
+        if isinstance(e, (ast.Attribute, ast.Name)): return 32
+        if isinstance(e, ast.BinOp):
+            a, b = self.ub(e.left), self.ub(e.right)
+            if isinstance(e.op, (ast.BitAnd, ast.BitOr, ast.BitXor)): return None if a is None or b is None else max(a, b)
+            if isinstance(e.op, ast.Add): return None if a is None or b is None else max(a, b) + 1
+            if isinstance(e.op, (ast.RShift, ast.FloorDiv)): return a
+            if isinstance(e.op, ast.Mod): return b
+            return None
+        if isinstance(e, ast.UnaryOp): return 1 if isinstance(e.op, ast.Not) else None
+        if isinstance(e, (ast.Compare, ast.BoolOp)): return 1
+        if isinstance(e, ast.IfExp):
+            a, b = self.ub(e.body), self.ub(e.orelse)
+            return None if a is None or b is None else max(a, b)
+        return None
+
+    def exact(self, e, W):
+        u = self.ub(e)
+        if not (W >= 31 or (u is not None and u <= W)): self.narrow = True
+        self.walk(e, W)
+
+    def selfdet(self, e):
+        self.exact(e, self.size(e))
+
+    def cond(self, e):
+        if isinstance(e, ast.BoolOp):
+            for v in e.values: self.cond(v)
+        elif isinstance(e, ast.UnaryOp) and isinstance(e.op, ast.Not): self.cond(e.operand)
+        else: self.selfdet(e)
+
+    def walk(self, e, W):
+        if isinstance(e, ast.BinOp):
+            if isinstance(e.op, (ast.FloorDiv, ast.Mod)): self.exact(e.left, W); self.exact(e.right, W)
+            elif isinstance(e.op, ast.RShift): self.exact(e.left, W); self.selfdet(e.right)
+            elif isinstance(e.op, ast.LShift): self.walk(e.left, W); self.selfdet(e.right)
+            else: self.walk(e.left, W); self.walk(e.right, W)
+        elif isinstance(e, ast.UnaryOp):
+            if isinstance(e.op, ast.Not): self.cond(e.operand)
+            else: self.walk(e.operand, W)
+        elif isinstance(e, ast.Compare):
+            if len(e.ops) == 1:
+                r = e.comparators[0]
+                if (isinstance(r, ast.BinOp) and isinstance(r.op, (ast.BitAnd, ast.BitOr, ast.BitXor))) or isinstance(r, (ast.Compare, ast.BoolOp, ast.IfExp)):
+                    self.cmp_rhs = True
+                cw = max(self.size(e.left), self.size(r))
+                self.exact(e.left, cw); self.exact(r, cw)
+        elif isinstance(e, ast.BoolOp):
+            for v in e.values: self.cond(v)
+        elif isinstance(e, ast.IfExp):
+            self.cond(e.test); self.walk(e.body, W); self.walk(e.orelse, W)
+        elif isinstance(e, ast.Call) and self.port_of(e) is None:
+            for a in e.args: self.walk(a, max(32, self.size(a)))
+
+    def stmts(self, body):
+        for s in body:
+            if isinstance(s, ast.If):
+                self.cond(s.test); self.stmts(s.body); self.stmts(s.orelse)
+            elif isinstance(s, ast.Match):
+                self.exact(s.subject, max(32, self.size(s.subject)))
+                for c in s.cases: self.stmts(c.body)
+            elif isinstance(s, ast.Assign):
+                self.walk(s.value, max(32, self.size(s.value)))
+            elif isinstance(s, ast.AugAssign):
+                self.walk(s.value, 32)
+            elif isinstance(s, ast.Expr) and isinstance(s.value, ast.Call):
+                f = s.value.func
+                if isinstance(f, ast.Attribute) and f.attr in ('prepare', 'put') and Dump.is_self_attr(f.value) and len(s.value.args) == 1:
+                    lw = self.pw.get(f.value.attr, 32)
+                    self.walk(s.value.args[0], max(lw, self.size(s.value.args[0])))
+            elif isinstance(s, (ast.For, ast.While)):
+                self.stmts(s.body)
+
+
+def signatures(fn_ast, port_width):
+    """(narrow-context arithmetic?, comparison with an unparenthesised right operand?) of a method ast"""
+    z = Sizes(port_width)
+    z.stmts(fn_ast.body)
+    return z.narrow, z.cmp_rhs
